@@ -152,6 +152,9 @@ def generate(prop, rng, tier):
              "wedge": 2}[cell]
     rec = meshes.random_recipe(rng, [cell], max_n=max_n,
                                order2=0.2 if prop != "C18" else 0.1)
+    if prop == "C13" and cell == "tet" and rng.random() < 0.3:
+        # long bisection chains: slivers with most of the cells marked
+        rec = dict(rec, family="tet-sliver", n=rng.choice([1, 2, 3, 4]))
     nops = rng.choice([2, 3, 4, 5, 6, 8])
     # swarm: a random subset of the op pool is enabled for this run
     pool = list(spec["pool"])
@@ -216,6 +219,11 @@ def generate(prop, rng, tier):
              and not (rec.get("stretch") and n in ("join", "join_mixed"))] \
         or list(spec["must"])
     ops.insert(pos, _gen_op(rng, rng.choice(musts)))
+    if rec["family"] == "tet-sliver":
+        for o in ops:
+            if o["op"] == "refine_adaptive" and rng.random() < 0.7:
+                o["mark"] = rng.choice(["all", "random", "random"])
+                o["frac"] = 0.6
     # tags early so that they travel
     if rng.random() < 0.8:
         ops.insert(0, _gen_op(rng, "tag_s"))
